@@ -56,6 +56,11 @@ def hookTransform (live : List (String × String)) (o : Obj) : Obj :=
   let vals := match vals.getD pS (.opaque "?") with
     | .v (.str s) => setLeaf vals pS (.v (.str (trimLeftSpaces s)))
     | _ => vals
+  -- `if t.I8 == 2 { t.Emb.Z += "x" }`: a hook that writes a possibly case-constrained field
+  let pZ := posOf live "Emb.Z"
+  let vals := match o.field pI, vals.getD pZ (.opaque "?") with
+    | .v (.i64 2), .v (.str z) => setLeaf vals pZ (.v (.str (z ++ [0x78])))
+    | _, _ => vals
   { o with vals := vals }
 
 /-- `(*T).Validate`: rejects `A == 13`, `S == "BAD"`, `P.W == "bad"` -/
@@ -116,6 +121,10 @@ structure DState where
   logMark : Nat := 0
   lower : Bool := false
   savedDescs : Option (List FieldDesc) := none
+  /-- objects of which it is not known whether the implementation holds them in its cache: a Collect
+      that stopped at an unreadable member of an UNORDERED result read (and cached) the members
+      that came before it in an order the model cannot know -/
+  cacheUnsure : List Nat := []
   deriving Inhabited
 
 def DState.env (d : DState) : Env := mkEnv d.c.live d.hooks
@@ -123,6 +132,15 @@ def DState.env (d : DState) : Env := mkEnv d.c.live d.hooks
 def DState.getS (d : DState) (i : Nat) : Option Search := (d.searches.find? (fun p => p.1 == i)).map (·.2)
 def DState.setS (d : DState) (i : Nat) (s : Search) : DState :=
   { d with searches := (d.searches.filter (fun p => p.1 != i)) ++ [(i, s)] }
+
+/-- a scan over the stored objects (All, a search on an unindexed field) stopped at an object that
+    cannot be read: it went through the uuid map in an order the model cannot know, reading — and,
+    with the cache on, caching — an unknown part of the other objects -/
+def DState.scanFailed (d : DState) (e : Option Err) : DState :=
+  match e, d.c.mem with
+  | some .notFound, some l | some .syntax, some l | some .other, some l =>
+    if l.settings.mustCache then { d with cacheUnsure := l.index.uuids ++ d.cacheUnsure } else d
+  | _, _ => d
 
 /-- model reply and verdict for one line: `some txt` = canonical model result to be compared
     textually with the implementation's; verdict overrides when a rule-based comparison is used -/
@@ -347,10 +365,24 @@ def DState.exec1 (d : DState) (op : String) (args : List String) (impl : String)
   | "get", [u] => do
     let u ← u.toNat?
     let (c, r) := d.c.get u
-    pure ({ d with c := c }, { txt := match r with
+    let txt := match r with
       | .ok o => o.print
       | .err e => "E:" ++ e.print
-      | .panic => "PANIC" })
+      | .panic => "PANIC"
+    -- an object whose file is gone may still be served from the cache: when it is not known
+    -- whether the implementation had cached it (see `cacheUnsure`) both answers are possible,
+    -- and the model adopts the one observed
+    if txt != impl && d.cacheUnsure.contains u then
+      match r, parseObj impl with
+      | .err .notFound, some io =>
+        if io.uuid == u then pure ({ d with c := { c with cache := c.cache.put io }, cacheUnsure := d.cacheUnsure.filter (· != u) }, { txt := txt, agree := some true })
+        else pure ({ d with c := c }, { txt := txt })
+      | .ok _, none =>
+        if impl == "E:notfound" then pure ({ d with c := { c with cache := c.cache.erase u }, cacheUnsure := d.cacheUnsure.filter (· != u) }, { txt := txt, agree := some true })
+        else pure ({ d with c := c }, { txt := txt })
+      | _, _ => pure ({ d with c := c }, { txt := txt })
+    else
+    pure ({ d with c := c }, { txt := txt })
   | "exist", [u] => do
     let u ← u.toNat?
     let (c, r) := d.c.exist u
@@ -370,14 +402,14 @@ def DState.exec1 (d : DState) (op : String) (args : List String) (impl : String)
       | .ok _ => printObjs (sortObjs os) ++ " ok"
       | .err e => "[] E:" ++ e.print       -- partial results before an error are not compared
       | .panic => "PANIC"
-    pure ({ d with c := c }, { txt := txt })
+    pure (({ d with c := c }).scanFailed (match r with | .err e => some e | _ => none), { txt := txt })
   | "search", [sid, f, o, p] => do
     let sid ← sid.toNat?
     let f ← unhexStr f
     let o ← parseOp o
     let p ← parseLeaf p
     let (c, s) := Coll.search E d.c f o p none
-    pure (({ d with c := c }).setS sid s, lenReply s impl)
+    pure ((({ d with c := c }).scanFailed s.err).setS sid s, lenReply s impl)
   | "and", [sid, old, f, o, p] => do
     let sid ← sid.toNat?
     let old ← old.toNat?
@@ -386,7 +418,7 @@ def DState.exec1 (d : DState) (op : String) (args : List String) (impl : String)
     let o ← parseOp o
     let p ← parseLeaf p
     let (c, s) := Coll.searchAnd E d.c s0 f o p
-    pure (({ d with c := c }).setS sid s, lenReply s impl)
+    pure ((({ d with c := c }).scanFailed s.err).setS sid s, lenReply s impl)
   | "or", [sid, old, f, o, p] => do
     let sid ← sid.toNat?
     let old ← old.toNat?
@@ -395,7 +427,7 @@ def DState.exec1 (d : DState) (op : String) (args : List String) (impl : String)
     let o ← parseOp o
     let p ← parseLeaf p
     let (c, s) := Coll.searchOr E d.c s0 f o p
-    pure (({ d with c := c }).setS sid s, lenReply s impl)
+    pure ((({ d with c := c }).scanFailed s.err).setS sid s, lenReply s impl)
   | "len", [sid] => do
     let s ← (sid.toNat?).bind d.getS
     pure (d, lenReply s impl)
@@ -429,7 +461,8 @@ def DState.exec1 (d : DState) (op : String) (args : List String) (impl : String)
           else (false, false)
         | none => (false, false)
       | _ => (false, false)
-    let d' := ({ d with c := c, tainted := if loose || alt then sid :: d.tainted else d.tainted }).setS sid s'
+    let d' := ({ d with c := c, tainted := if loose || alt then sid :: d.tainted else d.tainted,
+                        cacheUnsure := if loose || alt then readable.map Obj.uuid ++ d.cacheUnsure else d.cacheUnsure }).setS sid s'
     pure (d', { txt := txt, agree := some agree })
   | "expects", [sid, n] => do
     let sid ← sid.toNat?
@@ -451,7 +484,7 @@ def DState.exec1 (d : DState) (op : String) (args : List String) (impl : String)
     let loose := d.tainted.contains sid || (s.orderPos.isNone && s.err.isNone && fe.isSome)
     if loose then
       let (c, s', r) := Coll.one d.c s
-      let d' := ({ d with c := c, tainted := sid :: d.tainted }).setS sid s'
+      let d' := ({ d with c := c, tainted := sid :: d.tainted, cacheUnsure := readable.map Obj.uuid ++ d.cacheUnsure }).setS sid s'
       let agree := match parseObj impl with
         | some io => readable.contains io
         | none => some impl == fe.map (fun e => "E:" ++ e.print) || impl == "E:noobject"
@@ -467,7 +500,7 @@ def DState.exec1 (d : DState) (op : String) (args : List String) (impl : String)
           | some io => readable.contains io && some (capturedKey d.c s io) == keys.head?.map some && pmax > 2
           | none => impl == "E:" ++ e.print && pmin ≤ 2)
        | _, _ => false)
-    let dAlt := { d' with tainted := sid :: d'.tainted }
+    let dAlt := { d' with tainted := sid :: d'.tainted, cacheUnsure := readable.map Obj.uuid ++ d'.cacheUnsure }
     match r with
     | .ok o =>
       let agree := match parseObj impl with
@@ -499,7 +532,7 @@ def DState.exec1 (d : DState) (op : String) (args : List String) (impl : String)
   | "close", [] =>
     let (c, r) := d.c.close
     pure ({ d with c := c }, resOf r)
-  | "reopen", [] => pure ({ d with c := d.c.reopen, searches := [] }, { txt := "ok" })
+  | "reopen", [] => pure ({ d with c := d.c.reopen, searches := [], cacheUnsure := [] }, { txt := "ok" })
   | "commit", [] =>
     let (c, r) := d.c.commitCall
     pure ({ d with c := c }, resOf r)
@@ -510,6 +543,20 @@ def DState.exec1 (d : DState) (op : String) (args : List String) (impl : String)
   | "flush", [u] => do
     let u ← u.toNat?
     pure ({ d with c := d.c.flushOne u }, { txt := "ok" })
+  | "drop", [] =>
+    -- `DB.Drop`: the whole directory is removed and nothing of the handle's state survives
+    pure ({ d with c := { live := d.c.live }, searches := [], tainted := [], cacheUnsure := [], logMark := 0 }, { txt := "ok" })
+  | "fflush", [] =>
+    -- the flusher flushes although its condition does not hold NOW: it read the pending count
+    -- under the read lock, found the threshold reached, and obtained the write lock only after
+    -- other calls had changed the count.  Flushing early is always within the property.
+    match d.c.mem with
+    | some l =>
+      if l.flusher && l.settings.async.isSome then
+        let c := d.c.flushAll
+        pure ({ d with c := (c.commit l).setMem { l with slept := 0 } }, { txt := "ok" })
+      else pure (d, { txt := "ok" })
+    | none => pure (d, { txt := "ok" })
   | "tick", [n] => do
     let n ← n.toNat?
     pure ({ d with c := runTicks d.c n }, { txt := "ok" })
